@@ -366,17 +366,19 @@ struct Runner {
 		if(op == "swap") { int i = I(2), j = I(3); if(!need(i, true) || !need(j, true)) return "skip"; lg::begin(op); at(i).swap(at(j)); return op; }
 		if(op == "reextent" || op == "reextent_fill" || op == "reextent_rv") {
 			int i = I(2); if(!need(i, true)) return "skip"; auto ex = EX(3); std::string tag = op + (same_ext(i, ex) ? "/same" : "/diff"); lg::begin(tag);
+			bool diff = !same_ext(i, ex);
+			if constexpr(std::is_same_v<T, int>) if(diff) { int* q = at(i).data_elements(); for(long k = 0; k < static_cast<long>(at(i).num_elements()); ++k) q[k] = 1; }  // the harness' own write: copied elements lose the pattern
 			if(op == "reextent") at(i).reextent(mkext<D>(ex)); else if(op == "reextent_rv") std::move(at(i)).reextent(mkext<D>(ex)); else { T v = mkval<T>(9); at(i).reextent(mkext<D>(ex), v); }
-			if constexpr(std::is_same_v<T, int>) if(op != "reextent_fill") extra = " pat " + std::to_string(pattern_cells(i));
+			if constexpr(std::is_same_v<T, int>) if(op != "reextent_fill" && diff) extra = " pat " + std::to_string(pattern_cells(i));
 			return tag;
 		}
 		if(op == "reshape") { int i = I(2); if(!need(i, true)) return "skip"; auto ex = EX(3); long n = 1; for(auto const& e : ex) n *= (e.second - e.first); if(n != static_cast<long>(at(i).num_elements())) return "skip"; lg::begin(op); at(i).reshape(mkext<D>(ex)); return op; }
 		// array::assign(extensions, element) (array.hpp:1401-1410) cannot be instantiated at this commit ("layout_t is an inaccessible base"): not an operation of any history
-		if(op == "assign_view") {  // A = B.sliced(lo, hi) | A = B()
+		if(op == "assign_view" || op == "assign_viewl") {  // A = B.sliced(lo, hi) | A = B()   (assign_viewl: the view is a named lvalue)
 			int i = I(2), j = I(3); if(!need(i, true) || !need(j, true) || i == j) return "skip"; long lo = std::stol(w[4]), hi = std::stol(w[5]); if(lo >= 0 && !slice_ok(j, lo, hi)) return "skip";
-			Arr const& src = at(j);
-			if(lo < 0) { std::string tag = op + (at(i).extensions() == src().extensions() ? "/same" : "/diff"); lg::begin(tag); at(i) = src(); return tag; }
-			std::string tag = op + (at(i).extensions() == src.sliced(lo, hi).extensions() ? "/same" : "/diff"); lg::begin(tag); at(i) = src.sliced(lo, hi); return tag;
+			Arr const& src = at(j); bool lv = op == "assign_viewl";
+			if(lo < 0) { auto const& v = src(); std::string tag = op + (at(i).extensions() == v.extensions() ? "/same" : "/diff"); lg::begin(tag); if(lv) at(i) = v; else at(i) = src(); return tag; }
+			auto const& v = src.sliced(lo, hi); std::string tag = op + (at(i).extensions() == v.extensions() ? "/same" : "/diff"); lg::begin(tag); if(lv) at(i) = v; else at(i) = src.sliced(lo, hi); return tag;
 		}
 		if(op == "assign_range") {  // A.assign(B.begin(), B.end())
 			int i = I(2), j = I(3); if(!need(i, true) || !need(j, true) || i == j) return "skip"; if(at(j).size() < 1) return "skip"; Arr const& src = at(j);
@@ -609,8 +611,8 @@ static std::vector<std::string> gen_history(Rng& rng, Cfg const& c, int maxops, 
 			case 10: {
 				if(i == j) { --k; continue; }
 				long f = sh[j].ex[0].first, l = sh[j].ex[0].second;
-				if(l - f >= 1 && rng.coin(60)) { long lo = f, hi = rng.range(lo, l); L.push_back("x assign_view " + si + " " + sj + " " + std::to_string(lo) + " " + std::to_string(hi)); auto e = sh[j].ex; e[0] = Ex{lo, hi}; sh[i].ex = collapse(e); }
-				else { L.push_back("x assign_view " + si + " " + sj + " -1 -1"); sh[i].ex = sh[j].ex; }
+				if(l - f >= 1 && rng.coin(60)) { long lo = f, hi = rng.range(lo, l); L.push_back(std::string(rng.coin(50) ? "x assign_view " : "x assign_viewl ") + si + " " + sj + " " + std::to_string(lo) + " " + std::to_string(hi)); auto e = sh[j].ex; e[0] = Ex{lo, hi}; sh[i].ex = collapse(e); }
+				else { L.push_back(std::string(rng.coin(50) ? "x assign_view " : "x assign_viewl ") + si + " " + sj + " -1 -1"); sh[i].ex = sh[j].ex; }
 				break;
 			}
 			case 11: { if(i == j || sh[j].ex[0].second - sh[j].ex[0].first < 1) { --k; continue; } L.push_back("x assign_range " + si + " " + sj); sh[i].ex = sh[j].ex; break; }
